@@ -135,6 +135,7 @@ Inductive cellv := CAbsent | CNull | CVal (v : value).
 Section Oracles.
 Variable ffmt : Z -> Z -> bytes.
 Variable tz : Z -> Z.
+Variable efmt : Z -> bytes.
 
 Definition present_bits (img : list cellv) : list bool :=
   map (fun c => match c with CAbsent => false | _ => true end) img.
@@ -186,7 +187,7 @@ Definition expect_cell (ty : coltype) (uns : bool) (cv : cellv) : Z * bool * opt
   match cv with
   | CAbsent => (code_of ty, true, None)
   | CNull => (code_of ty, false, None)
-  | CVal v => (code_of ty, false, Some (text ffmt tz ty uns v))
+  | CVal v => (code_of ty, false, Some (text ffmt tz efmt ty uns v))
   end.
 
 End Oracles.
